@@ -153,7 +153,9 @@ CLAIMS["C11"] = _b(
     "result: wrong-direction and too-new kinds only close the sender (wrong_direction_closes_sender, C12 gated_message_fails); for ALL "
     "histories the operations handlers apply to stored channels and listeners cannot reach the 8 + 2 panic sites of channel.rs and "
     "bus_listener.rs (channel_ops_do_not_panic, listener_enumeration_does_not_panic); unknown or foreign cookies/serials are ignored "
-    "without touching other state (unknown_*, foreign_listener_untouched). The remaining expect(\"inconsistent state\") sites are "
+    "without touching other state (unknown_*, foreign_listener_untouched); the three debug_assert!s of ConnectionState::remove_call hold "
+    "in every turn of Broker::run from every reachable state (remove_call_asserts_hold, by the cross-reference invariant of the call "
+    "tables proved for C02; fewer than 2^32 pending calls). The remaining expect(\"inconsistent state\") sites are "
     "cross-reference lookups whose unreachability is not proved; they are covered by the 'abuse' profile of the correspondence runs "
     "(panics caught around every poll, the model names the site, liveness probe of every surviving connection): partial.",
     "DESIGN.md section 6 C11")
